@@ -76,6 +76,8 @@ def bounds(a):
     return a[0][0], a[-1][1]
 
 
+_RMP_MARKER_PAYLOAD = {"FixPos": (0, 127), "FixMap": (0, 15), "FixArray": (0, 15), "FixStr": (0, 31), "FixNeg": (-32, -1)}
+
 _ARITH_TRAITS = {
     "std::ops::Sub": ("sub", "Sub"),
     "std::ops::Add": ("add", "Add"),
@@ -130,6 +132,12 @@ class Interval:
                 return st.get((p["l"], p["pr"][0]["name"]))
             if len(p["pr"]) == 1 and p["pr"][0]["k"] == "deref":
                 return st.get((p["l"], "*"))
+            if len(p["pr"]) == 2 and p["pr"][0]["k"] == "downcast" and p["pr"][1]["k"] == "field" and self.body.local_ty(p["l"]).lstrip("&") == "rmp::Marker":
+                # payloads of rmp's marker variants are the bit fields of the marker byte (trusted base: rmp's
+                # `Marker::from_u8` masks them out of the byte)
+                r = _RMP_MARKER_PAYLOAD.get(p["pr"][0].get("variant"))
+                if r is not None:
+                    return (r,)
         return None
 
     def val_or_pointee(self, st, op):
